@@ -74,6 +74,18 @@ type fnInfo struct {
 	n   int
 }
 
+func (sh *shared) fnName(fn *ssa.Function) string {
+	if n, ok := sh.fnNames.Load(fn); ok {
+		return n.(string)
+	}
+	n := fn.String()
+	if fn.Origin() != nil {
+		n = fn.Origin().String()
+	}
+	sh.fnNames.Store(fn, n)
+	return n
+}
+
 func (sh *shared) fnInfoOf(fn *ssa.Function) *fnInfo {
 	if fi, ok := sh.fnInfos.Load(fn); ok {
 		return fi.(*fnInfo)
@@ -302,7 +314,7 @@ func (ex *Exec) visitInstr(fr *frame, instr ssa.Instruction) int {
 		fr.set(instr, newOmap(instr.Type().Underlying().(*types.Map).Key()))
 
 	case *ssa.Range:
-		fr.set(instr, ex.rangeIter(fr.get(instr.X)))
+		fr.set(instr, ex.rangeIter(fr, fr.get(instr.X)))
 
 	case *ssa.Next:
 		fr.set(instr, fr.get(instr.Iter).(iter).next())
@@ -458,6 +470,13 @@ func (ex *Exec) callSSA(caller *frame, callpos token.Pos, fn *ssa.Function, args
 		fr.g = caller.g
 	} else {
 		fr.g = ex.cur
+	}
+	if len(ex.icept) > 0 && fn.Parent() == nil {
+		// harness-level stand-in registered with vIntercept for this path
+		if h, ok := ex.icept[ex.sh.fnName(fn)]; ok {
+			ex.stubHits[fn]++
+			return ex.call(caller, callpos, h, args)
+		}
 	}
 	if fn.Parent() == nil {
 		ext, known := ex.extCache[fn]
